@@ -265,18 +265,28 @@ func c10Interactive(x *xctx) *violation {
 		}
 	}
 	steps = append(steps, c10step{line: "o"})
+	sessionNoDot = t.Bool(simrt.KCfg, 25)
+	sessionOSWriter = t.Bool(simrt.KCfg, 35)
+	defer func() { sessionNoDot, sessionOSWriter = false, false }()
+	return c10CheckHistory(x, prof, steps, t.Bool(simrt.KCfg, 50))
+}
+
+// c10CheckHistory runs the history in one session and compares every step
+// with a fresh session that has only the assignments made so far. With watch
+// the session's loaded profile is observed as well: if a command modifies it,
+// the history up to that command is re-run followed by a battery of plain
+// reports, each compared with a fresh session - a modification that no later
+// report can see is not a violation of the property, one that shows is.
+func c10CheckHistory(x *xctx, prof []byte, steps []c10step, watchProfile bool) *violation {
 	var lines []string
 	for _, s := range steps {
 		lines = append(lines, s.line)
 		x.tr("line %q", s.line)
 	}
 	cfg := simrt.Config{Strategy: simrt.StratRunToBlock}
-	sessionNoDot = t.Bool(simrt.KCfg, 25)
-	sessionOSWriter = t.Bool(simrt.KCfg, 35)
-	defer func() { sessionNoDot, sessionOSWriter = false, false }()
 	freshProcess(true)
 	var watch *profileWatch
-	if t.Bool(simrt.KCfg, 50) {
+	if watchProfile {
 		watch = &profileWatch{mutatedAt: -1}
 		sessionWatch = watch
 	}
@@ -289,8 +299,19 @@ func c10Interactive(x *xctx) *violation {
 		return violf("session-error", "interactive session returned %v", sess.err)
 	}
 	if watch != nil {
-		if watch.mutatedAt >= 0 && watch.mutatedAt < len(lines) {
-			return violf("session-profile-modified", "the profile the session holds was modified by line %d %q (every command is to work on a copy): %s", watch.mutatedAt, lines[watch.mutatedAt], watch.diff)
+		if m := watch.mutatedAt; m >= 0 && m < len(steps) {
+			x.tr("the session's loaded profile was modified by line %d %q: %s", m, lines[m], watch.diff)
+			probe := append([]c10step{}, steps[:m+1]...)
+			for i, cmd := range []string{"raw", "proto", "top", "traces", "tags", "tree", "text"} {
+				f := fmt.Sprintf("w%d", i)
+				probe = append(probe, c10step{line: cmd + " >" + f, file: f})
+			}
+			if v := c10CheckHistory(x, prof, probe, false); v != nil {
+				v.Class = "session-profile-modified"
+				v.Detail = fmt.Sprintf("line %d %q modified the profile the session holds (%s), and a later plain report shows it: %s", m, lines[m], watch.diff, v.Detail)
+				return v
+			}
+			x.probe("session_profile_modified_without_visible_effect")
 		}
 		x.probe("session_profile_watched")
 	}
